@@ -7,4 +7,4 @@ Extraction Language OCaml.
 Extraction "../ocaml/c11/model.ml"
   Z.add Z.mul Z.sub Z.div_eucl Z.compare Z.of_nat Z.to_nat Z.to_pos
   rnd64 f_present f_store f_store_checked f_restore_checked q_store q_store_checked q_present
-  f_step f_run f_presented f_init f_add f_sub f_mul f_div f_sstep f_srun.
+  f_step f_run f_presented f_init f_add f_sub f_mul f_div f_sstep f_srun f_view_op.
